@@ -171,6 +171,53 @@ def trace_rows(ck, nfiles):
                          sorted(clauses), r['_source'], r['_dec']))
 
 
+def _lt_worker(seed, n):
+    import legacy_trace as LT
+    return LT.record_batch(seed, n)
+
+
+def legacy_conformance(ck, nfiles):
+    """Specification growth beyond C05's statement (which is about format-string sources): the bank-specific readers parse_amex /
+    parse_boa against LegacyParsers.tla, code -> spec.  CONFORMANCE INFORMATION ONLY - never a verdict about C05: deviations are
+    counted in the evidence, and a tree without these deprecated readers skips the family."""
+    import copy
+    from props.totals_common import run_trace_sharded
+    try:
+        from tally import parsers as P
+        if not (hasattr(P, 'parse_amex') and hasattr(P, 'parse_boa')):
+            ck.extra['legacy_parsers'] = {'skipped': 'parse_amex / parse_boa are not in this tree'}
+            return
+        ck.expect_model_ok('MC_LegacyParsers', tlc.run('MC_LegacyParsers', 'MC_LegacyParsers.cfg'))
+        ck.expect_model_violation('MC_LegacyParsers/neg', tlc.run('MC_LegacyParsers', 'MC_LegacyParsers_neg.cfg'), 'Neg_EveryRow')
+        nw = 16
+        try:
+            outs = par.pmap(_lt_worker, [ck.seed * 6151 + 13 * s + 1 for s in range(nw)], extra=(max(1, nfiles // nw),))
+        except Exception as ex:                      # the real readers raised on a generated file: a note, not a verdict
+            ck.extra['legacy_parsers'] = {'recorder_stopped': '%s: %s' % (type(ex).__name__, str(ex)[:200])}
+            return
+        recs, tot = [], {}
+        for rs, st in outs:
+            recs += [{k: v for k, v in r.items() if not k.startswith('_')} for r in rs]
+            for k, v in st.items():
+                tot[k] = tot.get(k, 0) + v
+        base = next((r for r in recs if r['obs']), None)
+        if base is None:
+            raise core.Machinery('legacy parser recorder: no file produced a transaction')
+        tam = copy.deepcopy(base)
+        tam['id'] = 'TAMPER'
+        tam['obs'][0]['m'] = -tam['obs'][0]['m']
+        rej = run_trace_sharded(ck, 'Trace_LegacyParsers', recs + [tam], 'Trace_LegacyParsers', 'Trace_LegacyParsers.cfg', shards=4)
+        if 'TAMPER' not in rej:
+            raise core.Machinery('Trace_LegacyParsers accepted a record with the sign of an amount flipped: the binding is vacuous')
+        rej.pop('TAMPER')
+        if any(c.startswith('MODEL') for cl in rej.values() for c in cl):
+            raise core.Machinery('Trace_LegacyParsers model inconsistency: %s' % sorted(rej.items())[:2])
+        ck.extra['legacy_parsers'] = dict(tot, deviations=len(rej), deviating_clauses=sorted({c for cl in rej.values() for c in cl}),
+                                          first=sorted(rej)[:3])
+    except core.Machinery:
+        raise
+
+
 def _rt_validate(item):
     k, recs = item
     from props.totals_common import run_trace_spec
@@ -218,6 +265,7 @@ def run(ck):
         if sample:
             ck.sample(sample, cap=3)
     trace_rows(ck, 24000 if quick else 240000)
+    legacy_conformance(ck, 8000 if quick else 80000)
     ck.extra['rule'] = ('tables of <= 2 rows (every vocabulary cell substituted into a good row; short / long / empty-line rows) and <= 3 (quick) / 4 rows '
                         '(13 row kinds), x 4 layouts (simple, skip+ISO+location, captures+template, extra field) x 3 sign modes x 2 decimal '
                         'conventions x header yes/no, each rendered twice with random delimiter (comma, semicolon, tab, regex), quoting policy '
